@@ -33,6 +33,8 @@ ANCHORS = [
     (_FC, "WriteFlowControl.resume_writing"), (_FC, "WriteFlowControl.connection_lost"),
     (_ST, "AsyncioTransportStreamSocketAdapter.__init__"), (_ST, "AsyncioTransportStreamSocketAdapter.send_all"),
     (_ST, "AsyncioTransportStreamSocketAdapter.send_all_from_iterable"),
+    (_ST, "AsyncioTransportStreamSocketAdapter.aclose"), (_DE, "DatagramEndpoint.aclose"), (_DE, "DatagramEndpoint.close_nowait"),
+    (_DL, "DatagramListenerSocketAdapter.aclose"),
     (_ST, "StreamReaderBufferedProtocol.connection_made"), (_ST, "StreamReaderBufferedProtocol.connection_lost"),
     (_ST, "StreamReaderBufferedProtocol.pause_writing"), (_ST, "StreamReaderBufferedProtocol.resume_writing"),
     (_ST, "StreamReaderBufferedProtocol.writer_drain"),
